@@ -40,6 +40,7 @@ stats = collections.defaultdict(lambda: [0, 0, 0])
 variants = sorted(os.path.basename(os.path.dirname(p)) for g in ("seeded", "selftest", "benign") for p in glob.glob(os.path.join(ROOT, g, "*", "patch.diff")))
 for v in variants:
     g = where(v)
+    if os.path.exists(os.path.join(ROOT, g, v, "OBSOLETE")): continue      # rewrites code a later fix: commit changed and preserves the defect (see the file)
     caught = sorted(c for c in hits.get(v, {}) if hits[v][c])
     own = v.split("-")[0]
     wave = v.split("-")[1]
